@@ -36,17 +36,39 @@ class Edwards:
     def neg(s, P):
         return ((-P[0]) % s.p, P[1])
 
-    def mul(s, k, P):
-        k %= s.L
-        R = s.O
-        while k:
-            if k & 1:
-                R = s.add(R, P)
-            P = s.add(P, P)
-            k >>= 1
-        return R
+    def padd(s, P, Q):
+        """projective (X:Y:Z) addition, complete (a square, d non-square): add-2008-bbjlp"""
+        p = s.p
+        X1, Y1, Z1 = P
+        X2, Y2, Z2 = Q
+        A = Z1 * Z2 % p
+        B = A * A % p
+        C = X1 * X2 % p
+        D = Y1 * Y2 % p
+        E = s.d * C * D % p
+        F = (B - E) % p
+        G = (B + E) % p
+        X3 = A * F * ((X1 + Y1) * (X2 + Y2) - C - D) % p
+        Y3 = A * G * (D - s.a * C) % p
+        return (X3, Y3, F * G % p)
 
     def mul_raw(s, k, P):
+        """k*P without reducing k; projective double-and-add, one inversion at the end
+        (pinned against the affine law in selftest and, through every vector, to the RFC)"""
+        R = (0, 1, 1)
+        Q = (P[0], P[1], 1)
+        while k:
+            if k & 1:
+                R = s.padd(R, Q)
+            Q = s.padd(Q, Q)
+            k >>= 1
+        zi = inv(R[2], s.p)
+        return (R[0] * zi % s.p, R[1] * zi % s.p)
+
+    def mul(s, k, P):
+        return s.mul_raw(k % s.L, P)
+
+    def mul_affine(s, k, P):
         R = s.O
         while k:
             if k & 1:
@@ -568,6 +590,11 @@ def selftest(verbose=False):
             total += n
             if verbose:
                 print(f"{suite:14} {f:30} {n} values reproduced")
+    # projective scalar multiplication agrees with the affine addition law
+    for E in (ED25519, ED448):
+        for k in (1, 2, 3, 7, 0xDEADBEEFCAFE, E.L - 1, E.L, E.L + 5):
+            assert E.mul_raw(k, E.B) == E.mul_affine(k, E.B), "projective vs affine"
+            total += 1
     # decoders: round trips and rejections
     for name, S in SUITES.items():
         c = S.c
